@@ -29,6 +29,8 @@ w_maybe_expect_linebreak = Fn(FW, "maybe_expect_linebreak", impl=WI, slot="synta
     ensures=[C("takes_one_line_break", "res is Some == hd_lb(old(self).stream()) && final(self).src() == old(self).src() && (if res is Some { final(self).stream() == dec_lb(old(self).stream()) } else { %s })" % SAME_W)])
 w_next_useful_is = Fn(FW, "next_useful_is", impl=WI, slot="syntax", mode="stub", ret="res", key="Walker::next_useful_is",
     ensures=[C("peeks", SAME_W + " && (nth == 0 && !ignorable(kind) ==> res == hd_is(old(self).stream(), kind))")])
+w_next_nth_useful = Fn(FW, "next_nth_useful_token", impl=WI, slot="syntax", mode="stub", ret="res", key="Walker::next_nth_useful_token",
+    ensures=[C("peeks", "nth == 0 && self.stream().len() > 0 ==> res == self.stream()[0].tok")])
 w_cursor_span = Fn(FW, "get_cursor_span", impl=WI, slot="syntax", mode="stub", ret="res", key="Walker::get_cursor_span",
     ensures=[C("the_cursor", "res == self.cursor_span()")])
 w_span_excerpt = Fn(FW, "get_span_excerpt", impl=WI, slot="syntax", mode="stub", ret="res", key="Walker::get_span_excerpt",
@@ -98,7 +100,7 @@ SEARCH_GHOSTS = ("let ghost verif_ws = self.walker.stream(); let ghost verif_w0 
                  " let ghost verif_fw = mut_ref_future(self.walker); let ghost verif_fr = mut_ref_future(self.report);\n\t\t")
 
 parse_ternary = pfn("parse_ternary_conditional", sp("sp_ternary"),
-    inserts=[Insert("Expr::Block(true_branch.span(), Vec::new())", "proof { assert(views(Seq::<Expr>::empty()) =~= Seq::<SExpr>::empty()); } ", where="before")])
+    inserts=[Insert("let cond = self.parse_assignment()?;", "proof { assert(views(Seq::<Expr>::empty()) =~= Seq::<SExpr>::empty()); }\n\t\t", where="before")])
 parse_assignment = pfn("parse_assignment", sp("sp_assign"),
     closures={1: closure(sps("sp_bin", "0"))},
     inserts=[Insert("self.parse_right_associative_binary_ops(", "proof { lemma_level_of(0); lemma_tables_useful(); }\n\t\t", where="before")])
@@ -167,7 +169,7 @@ parse_block = pfn("parse_block", "(if hd_is(%s, TokenKind::BraceOpen) { sp_block
     ], ensures=[C("a_closing_brace_is_next", "hd_is(self.walker.stream(), TokenKind::BraceClose)")])})
 parse_paren = pfn("parse_parenthesized", "(if hd_is(%s, TokenKind::ParenOpen) { match sp_expr(%s, tl(%s), %s) { PRes::Bad => PRes::Bad, PRes::Good(e, w1) => if hd_is(w1, TokenKind::ParenClose) { PRes::Good(e, tl(w1)) } else { PRes::Bad } } } else { PRes::Bad })" % (WS0, SRC, WS0, D))
 parse_variable = pfn("parse_variable", "sp_dots(%s, %s, dummy(), 0)" % (SRC, WS0),
-    rewrites=[Rewrite("let mut hierarchy_level = 0;", "let mut hierarchy_level: usize = 0;", rule="R10", why="type ascription"),
+    rewrites=[Rewrite(r"let mut hierarchy_level = (\w+);", r"let mut hierarchy_level: usize = \1;", regex=True, rule="R10", why="type ascription"),
               Rewrite("let mut hierarchy = Vec::new();", "let mut hierarchy: Vec<String> = Vec::new();", rule="R10", why="type ascription"),
               Rewrite("self.walker.get_span_excerpt(tk_name.span).to_string()", "verif_to_string(self.walker.get_span_excerpt(tk_name.span))", rule="R16", why="str::to_string -> prelude wrapper (the same text)")],
     inserts=[Insert("let mut hierarchy: Vec<String> = Vec::new();", "\n\t\tproof { assert(texts(Seq::<String>::empty()) =~= Seq::<Seq<char>>::empty()); }", where="after"),
@@ -209,7 +211,7 @@ UNIT = Unit(
     items=[
         r_error_span, msg_error_span, r_dedup, report_new, span_join, span_dummy,
         Type(FT, "struct", "Token", slot="syntax", derive="drop"), Type(FT, "enum", "TokenKind", slot="syntax", derive="Clone, Copy"),
-        w_maybe_expect, w_expect, w_next_linebreak, w_maybe_expect_linebreak, w_next_useful_is, w_cursor_span, w_span_excerpt, x_bigint, x_string,
+        w_maybe_expect, w_expect, w_next_linebreak, w_maybe_expect_linebreak, w_next_useful_is, w_next_nth_useful, w_cursor_span, w_span_excerpt, x_bigint, x_string,
         Type(FE, "enum", "Expr", slot="expr"), Type(FE, "enum", "Value", slot="expr"), Type(FE, "struct", "ExprString", slot="expr"),
         Type(FE, "enum", "UnaryOp", slot="expr", derive="Clone, Copy"), Type(FE, "enum", "BinaryOp", slot="expr", derive="Clone, Copy"),
         Type("src/expr/mod.rs", "const", "PARSE_RECURSION_DEPTH_MAX", slot="expr"),
